@@ -143,6 +143,11 @@ CATALOGUE: list[tuple] = [
     ("identifier-no-push-guard", ["C10"], SCANNER, "RE_IDENTIFIER = re.compile(r\"(?!PUSH)[_a-zA-Z][_a-zA-Z0-9]*\")", "RE_IDENTIFIER = re.compile(r\"[_a-zA-Z][_a-zA-Z0-9]*\")", "fire", "RE_IDENTIFIER"),
     ("tag-lookahead-whitespace-only", ["C10"], SCANNER, "RE_TAG = re.compile(r\"#[_a-zA-Z][_a-zA-Z0-9]*\")", "RE_TAG = re.compile(r\"#[_a-zA-Z][_a-zA-Z0-9]*(?=\\s*=)\")", "fire", "RE_TAG"),
     ("S-inline-condition-reordered", ["C02"], "src/pest/grammar/optimizers/inliners.py", "            rule\n            and rule.modifier == SILENT\n            and expr.value not in (\"WHITESPACE\", \"COMMENT\")\n", "            rule is not None\n            and expr.value not in {\"COMMENT\", \"WHITESPACE\"}\n            and rule.modifier == SILENT\n", "silent", ""),
+    ("linecol-end-of-text-new-line", ["C14"], PAIRS, "            if lines and lines[-1].splitlines()[0] == lines[-1]:\n                return len(lines), len(lines[-1]) + 1\n            return len(lines) + 1, 1", "            return len(lines) + 1, 1", "fire", "line_col"),
+    ("line-of-indexes-text", ["C14"], PAIRS, "        return lines[line_number - 1] if line_number <= len(lines) else \"\"", "        return self.text[line_number - 1]", "fire", "line_of"),
+    ("linecol-column-zero-based", ["C14"], PAIRS, "            self.pos - (cumulative_length - len(lines[target_line_index])) + 1\n        )\n        return line_number, column_number", "            self.pos - (cumulative_length - len(lines[target_line_index]))\n        )\n        return line_number, column_number", "fire", "line_col"),
+    ("span-lines-off-by-one", ["C14"], PAIRS, "        return lines[start_line_number - 1 : end_line_number]", "        return lines[start_line_number - 1 : end_line_number - 1]", "fire", "Span.lines"),
+    ("S-linecol-count-rfind-form", ["C14"], PAIRS, "        lines = self.text.splitlines(keepends=True)\n        cumulative_length = 0\n        target_line_index = -1\n\n        for i, line in enumerate(lines):\n            cumulative_length += len(line)\n            if self.pos < cumulative_length:\n                target_line_index = i\n                break\n\n        if target_line_index == -1:\n            # At the end of the text: on a new line if the text is empty or\n            # ends with a line break, else just after the last line.\n            if lines and lines[-1].splitlines()[0] == lines[-1]:\n                return len(lines), len(lines[-1]) + 1\n            return len(lines) + 1, 1\n\n        # 1-based\n        line_number = target_line_index + 1\n        column_number = (\n            self.pos - (cumulative_length - len(lines[target_line_index])) + 1\n        )\n        return line_number, column_number", "        before = self.text[: self.pos]\n        return before.count(\"\\n\") + 1, self.pos - before.rfind(\"\\n\")", "silent", ""),
 ]
 
 
